@@ -36,35 +36,88 @@ Lemma method_ok_spec mf m : method_ok mf m = true <-> meth_lang mf m.
 Proof. destruct mf; cbn; [tauto | apply full_match_spec]. Qed.
 
 (* ---------- one option ---------- *)
-(* a handler option takes the request iff its pattern matches the whole url and, for map-style handlers, there is a
-   request context whose method is in the language of the filter and every selected group is valid text;
-   the arguments are exactly the selected groups of that match *)
+(* what arg_conv delivers: assign-style handlers get the selected groups as they are; map-style string handlers get
+   them if every one is valid text; map-style int handlers get the decimal values if, in addition, every one parses *)
+Lemma arg_conv_assign raw : arg_conv KAssign raw = Some raw.
+Proof. reflexivity. Qed.
+Lemma arg_conv_map raw args : arg_conv KMap raw = Some args <-> args = raw /\ forallb valid_text raw = true.
+Proof.
+  cbn [arg_conv]. destruct (forallb valid_text raw); split.
+  - intros H. injection H as <-. auto.
+  - intros [-> _]. reflexivity.
+  - discriminate.
+  - intros [_ H]. discriminate.
+Qed.
+Lemma arg_conv_int raw args : arg_conv KMapInt raw = Some args <->
+  forallb valid_text raw = true /\ exists zs, parse_ints raw = Some zs /\ args = map show_int zs.
+Proof.
+  cbn [arg_conv]. destruct (forallb valid_text raw).
+  - destruct (parse_ints raw) as [zs|]; split.
+    + intros H. injection H as <-. eauto.
+    + intros (_ & zs' & E & ->). injection E as <-. reflexivity.
+    + discriminate.
+    + intros (_ & zs' & E & _). discriminate.
+  - split; [discriminate | intros [H _]; discriminate].
+Qed.
+Lemma parse_ints_spec : forall raw zs, parse_ints raw = Some zs <-> Forall2 (fun r z => parse_int r = Some z) raw zs.
+Proof.
+  induction raw as [|r raw IH]; intros zs; cbn [parse_ints].
+  - split; [intros H; injection H as <-; constructor | intros H; inversion H; reflexivity].
+  - destruct (parse_int r) as [z|] eqn:Ez.
+    + destruct (parse_ints raw) as [zs'|] eqn:Ezs.
+      * split.
+        -- intros H. injection H as <-. constructor; [exact Ez | apply IH; reflexivity].
+        -- intros H. inversion H as [|r' z' raw' zs'' Hz Hzs]; subst. apply IH in Hzs. congruence.
+      * split; [discriminate|]. intros H. inversion H as [|r' z' raw' zs'' Hz Hzs]; subst. apply IH in Hzs. discriminate.
+    + split; [discriminate|]. intros H. inversion H as [|r' z' raw' zs'' Hz Hzs]; subst. congruence.
+Qed.
+
+(* every kind of handler has the same shape: context + method filter (map-style only), whole-string pattern match,
+   argument conversion *)
+Lemma try_handler_shape kd k p mf hid sel url c :
+  try_opt kd (DH k p mf hid sel) url c =
+  match (match k with KAssign => Some true | _ => match c with Some m => Some (method_ok mf m) | None => None end end) with
+  | Some true => match pat_match p url with
+                 | Some gs => match arg_conv k (map (grp gs) sel) with
+                              | Some args => Some (Fired hid args)
+                              | None => None
+                              end
+                 | None => None
+                 end
+  | _ => None
+  end.
+Proof.
+  destruct k; cbn [try_opt arg_conv].
+  - destruct (pat_match p url); reflexivity.
+  - destruct c as [m|]; [|reflexivity]. destruct (method_ok mf m); [|reflexivity].
+    destruct (pat_match p url) as [gs|]; [|reflexivity]. destruct (forallb valid_text (map (grp gs) sel)); reflexivity.
+  - destruct c as [m|]; [|reflexivity]. destruct (method_ok mf m); reflexivity.
+Qed.
+
+(* a handler option takes the request iff its pattern matches the whole url, the selected groups convert to the
+   parameter types of the handler (arg_conv) and, for map-style handlers, there is a request context whose method is in
+   the language of the filter; the arguments are exactly the converted selected groups of that match *)
 Theorem handler_fires_iff kd k p mf hid sel url c out :
   try_opt kd (DH k p mf hid sel) url c = Some out <->
-  exists gs, pat_match p url = Some gs /\ out = Fired hid (map (grp gs) sel) /\
-             (k = KMap -> exists m, c = Some m /\ meth_lang mf m /\ forallb valid_text (map (grp gs) sel) = true).
+  exists gs args, pat_match p url = Some gs /\ arg_conv k (map (grp gs) sel) = Some args /\ out = Fired hid args /\
+             (k <> KAssign -> exists m, c = Some m /\ meth_lang mf m).
 Proof.
-  destruct k; cbn [try_opt].
-  - destruct (pat_match p url) as [gs|].
-    + split.
-      * intros H. injection H as <-. exists gs. split; [reflexivity|]. split; [reflexivity | discriminate].
-      * intros (gs' & E & -> & _). injection E as ->. reflexivity.
-    + split; [discriminate | intros (gs' & E & _); discriminate].
-  - destruct c as [m|].
-    + destruct (method_ok mf m) eqn:Hm.
-      * destruct (pat_match p url) as [gs|].
-        -- destruct (forallb valid_text (map (grp gs) sel)) eqn:Hv.
-           ++ split.
-              ** intros H. injection H as <-. exists gs. split; [reflexivity|]. split; [reflexivity|].
-                 intros _. exists m. split; [reflexivity|]. split; [apply method_ok_spec; assumption | assumption].
-              ** intros (gs' & E & -> & _). injection E as ->. reflexivity.
-           ++ split; [discriminate|]. intros (gs' & E & _ & Hk). injection E as <-.
-              destruct (Hk eq_refl) as (m' & _ & _ & Hv'). congruence.
-        -- split; [discriminate | intros (gs' & E & _); discriminate].
-      * split; [discriminate|]. intros (gs' & _ & _ & Hk).
-        destruct (Hk eq_refl) as (m' & E & Hm' & _). injection E as <-.
-        apply method_ok_spec in Hm'. congruence.
-    + split; [discriminate|]. intros (gs' & _ & _ & Hk). destruct (Hk eq_refl) as (m' & E & _). discriminate.
+  rewrite try_handler_shape. split.
+  - intros H.
+    assert (Hc : k <> KAssign -> exists m, c = Some m /\ meth_lang mf m).
+    { intros Hk. destruct k; [congruence| |]; (destruct c as [m|]; [|discriminate]);
+        (destruct (method_ok mf m) eqn:Hm; [|discriminate]); exists m; (split; [reflexivity | apply method_ok_spec; exact Hm]). }
+    destruct (match k with KAssign => Some true | _ => match c with Some m => Some (method_ok mf m) | None => None end end)
+      as [[|]|]; try discriminate.
+    destruct (pat_match p url) as [gs|]; [|discriminate].
+    destruct (arg_conv k (map (grp gs) sel)) as [args|] eqn:Ea; [|discriminate].
+    injection H as <-. exists gs, args. auto.
+  - intros (gs & args & E & Ea & -> & Hc).
+    assert (Hg : (match k with KAssign => Some true | _ => match c with Some m => Some (method_ok mf m) | None => None end end)
+                 = Some true).
+    { destruct k; [reflexivity| |]; (destruct Hc as (m & -> & Hm); [discriminate|]);
+        apply method_ok_spec in Hm; rewrite Hm; reflexivity. }
+    rewrite Hg, E, Ea. reflexivity.
 Qed.
 
 Lemma nth_kid_fns kids k d : nth k (kid_fns kids) d =
@@ -94,7 +147,7 @@ Definition opt_pat (o : dopt) : pattern := match o with DH _ p _ _ _ => p | DM p
 Theorem taken_whole_string kd o url c out : try_opt kd o url c = Some out -> lang (pat_re (opt_pat o)) url.
 Proof.
   destruct o as [k p mf hid sel|p sel kid]; cbn [opt_pat].
-  - intros H. apply handler_fires_iff in H. destruct H as (gs & E & _). eapply pat_match_whole. eassumption.
+  - intros H. apply handler_fires_iff in H. destruct H as (gs & args & E & _). eapply pat_match_whole. eassumption.
   - cbn [try_opt]. destruct (pat_match p url) as [gs|] eqn:E; [|discriminate]. intros _.
     eapply pat_match_whole. eassumption.
 Qed.
@@ -153,16 +206,17 @@ Proof.
   intros Hh. split; [|apply scan_none_not_found].
   intros Hs. destruct (scan_first_match kd opts url c) as [(i & o & out & Hn & Ht & _ & Hs') | [Hall _]]; [|exact Hall].
   exfalso. apply nth_error_In in Hn. specialize (Hh o Hn). destruct o as [k p mf hid sel|]; [|contradiction].
-  apply handler_fires_iff in Ht. destruct Ht as (gs & _ & -> & _). congruence.
+  apply handler_fires_iff in Ht. destruct Ht as (gs & args & _ & _ & -> & _). congruence.
 Qed.
 
 (* ---------- whole trees: whoever fires was reached through whole-string matches only ---------- *)
 Inductive fires : app -> bytes -> ctx -> N -> list bytes -> Prop :=
-| FiresH a k p mf hid sel url c gs :
+| FiresH a k p mf hid sel url c gs args :
     In (DH k p mf hid sel) (app_opts a) ->
     lang (pat_re p) url -> pat_match p url = Some gs ->
-    (k = KMap -> exists m, c = Some m /\ meth_lang mf m) ->
-    fires a url c hid (map (grp gs) sel)
+    arg_conv k (map (grp gs) sel) = Some args ->
+    (k <> KAssign -> exists m, c = Some m /\ meth_lang mf m) ->
+    fires a url c hid args
 | FiresM a p sel k kid url c gs hid args :
     In (DM p sel k) (app_opts a) ->
     lang (pat_re p) url -> pat_match p url = Some gs ->
@@ -182,9 +236,8 @@ Proof.
     [|congruence].
   rewrite Hs in Hd. subst out. apply nth_error_In in Hn.
   destruct o as [k p mf h sel|p sel k].
-  - apply handler_fires_iff in Ht. destruct Ht as (gs & E & Ef & Hk). injection Ef as -> ->.
-    eapply FiresH; [exact Hn | eapply pat_match_whole; eassumption | exact E |].
-    intros Ek. destruct (Hk Ek) as (m & Ec & Hm & _). eauto.
+  - apply handler_fires_iff in Ht. destruct Ht as (gs & args' & E & Ea & Ef & Hk). injection Ef as -> ->.
+    eapply FiresH; [exact Hn | eapply pat_match_whole; eassumption | exact E | exact Ea | exact Hk].
   - apply mount_takes_iff in Ht. destruct Ht as (gs & E & Ef).
     destruct (nth_error kids k) as [kid|] eqn:Ek; [|discriminate].
     symmetry in Ef. apply finish404_fired in Ef.
